@@ -197,6 +197,11 @@ def replayTrace (g : Graph) (lim : Option Nat) (evs : List String) : Json :=
         if e.view != "" && !viewMatch e.view.toList (view lim s').toList then
           Json.mkObj [("ok", false), ("at", i), ("ev", es), ("why", "view"), ("model", view lim s')]
         else go s' (i + 1) rest
+  -- `walk` returns nil before creating any goroutine when the graph has no vertex (traversal.go:86-88)
+  if g.verts.isEmpty then
+    if evs == ["M|M.wait||||nil|"] then Json.mkObj [("ok", true), ("n", 1), ("terminal", true)]
+    else Json.mkObj [("ok", false), ("at", 0), ("ev", evs.headD ""), ("why", "empty graph: walk must return nil at once"), ("model", "")]
+  else
   go (init g) 0 evs
 
 def graphOfArgs (args : Json) : Graph × Option Nat :=
